@@ -90,10 +90,10 @@ PROPS = {
   "parts": [
     {"name": "rel", "flavor": "asan-rel", "monitor": "C06", "cases": {"quick": 400, "thorough": 8000}},
   ],
-  "nontrivial": {"fn": lambda js: cnt(js, "ovmb.reads") + cnt(js, "ascii.reads") >= 2 or cnt(js, "pending.files") >= 1 or cnt(js, "ovmb.boundary-files") >= 1,
-                 "text": "case = generated poly/tet/hex mesh (engine history, garbage collected; empty meshes every 23rd case) with 2-9 persistent properties over 7 entity kinds x 31 value types (all OVMB codecs / the ASCII typeName list), random values incl. NaN/inf/-0/denormals for OVMB. OVMB: writer bytes are decoded by an independent ksy-based decoder and must equal the mesh bit for bit (values, defaults, header type); library round trip into every compatible mesh type x topology check on (meshes that pass it)/off x incidences on/off (+C01 oracle); incompatible types refused; 6 (thorough 12) alternative permitted encodings from an independent encoder (1-4 spans per array, u8->u16->u32 widening, float positions where exact, fixed/variable valence, non-zero handle_offset, unknown non-mandatory chunks, interleaved chunk order, late DIRP, odd padding) must read to the same mesh. ASCII: write/read/write; printable-exact values compared exactly, arbitrary doubles to 1e-5, second round trip byte-identical, isHexahedralMesh/isTetrahedralMesh and IO::read_file on real files. Every 10th case: mesh with pending deletions must be refused or written as its logical content; boundary cases at 255/256 (thorough also 65535/65536) entities. non-trivial = >=2 reads, or a pending / boundary file; distinct by operation digest"},
+  "nontrivial": {"fn": lambda js: cnt(js, "ovmb.reads") + cnt(js, "ascii.reads") >= 2 or cnt(js, "pending.files") >= 1 or cnt(js, "ovmb.boundary-files") + cnt(js, "ovmb.valence-files") >= 1,
+                 "text": "case = generated poly/tet/hex mesh (engine history, garbage collected; empty meshes every 23rd case) with 2-9 persistent properties over 7 entity kinds x 31 value types (all OVMB codecs / the ASCII typeName list), random values incl. NaN/inf/-0/denormals for OVMB. OVMB: writer bytes are decoded by an independent ksy-based decoder and must equal the mesh bit for bit (values, defaults, header type); library round trip into every compatible mesh type x topology check on (meshes that pass it)/off x incidences on/off (+C01 oracle); incompatible types refused; 6 (thorough 12) alternative permitted encodings from an independent encoder (1-4 spans per array, u8->u16->u32 widening, float positions where exact, fixed/variable valence, non-zero handle_offset, unknown non-mandatory chunks, interleaved chunk order, late DIRP, odd padding) must read to the same mesh. ASCII: write/read/write; printable-exact values compared exactly, arbitrary doubles to 1e-5, second round trip byte-identical, isHexahedralMesh/isTetrahedralMesh and IO::read_file on real files. Every 10th case: mesh with pending deletions must be refused or written as its logical content; boundary cases at 255/256 (thorough also 65535/65536) entities, and at face / cell valences 254..257, 300, 511, 512, 1000 (uniform and mixed). non-trivial = >=2 reads, or a pending / boundary file; distinct by operation digest"},
   "floor": {"quick": 150, "thorough": 3000},
-  "min_counts": {"ovmb.variants": 500, "ovmb.reads": 500, "ascii.reads": 300, "pending.files": 10},
+  "min_counts": {"ovmb.variants": 500, "ovmb.reads": 500, "ascii.reads": 300, "pending.files": 10, "ovmb.valence-files": 4},
   "assumptions": COMMON_ASSUME + ["PROP payload encodings are not part of the ksy: the reference decoder assumes little-endian fixed-size elements, LSB-first bit packing for bool and u32-length-prefixed strings", "ASCII values of char type are restricted to printable non-space characters; strings to printable characters"],
  },
  "C07": {
@@ -242,9 +242,9 @@ PROPS = {
     {"name": "geo", "flavor": "asan-dbg", "monitor": "C19", "sub": "geo", "cases": {"quick": 300, "thorough": 5000}},
   ],
   "nontrivial": {"fn": lambda js: cnt(js, "vec.pairs") >= 100 or (cnt(js, "geo.faces") >= 3 and cnt(js, "geo.halfedges") >= 6),
-                 "text": "part vec: dims 2,3,4 x {int, unsigned, float, double}. Integer types: ALL ordered pairs over the lattice {-3..3}^DIM resp. {0..6}^DIM, chunked by first vector (quick: dims 2 and 3 complete, dim 4 sampled chunks; thorough: all three dims complete = 49+117649+5764801 pairs per type); floating types: random magnitudes over 60 binades + specials (0,-0, denormals, 1e17, 1e150, equal components, equal vectors). Every pair is pushed through + - * / (vector and scalar, in-place forms), unary minus, ==, !=, lexicographic <, |, dot, %, cross, sqrnorm, norm, length, normalize/normalized/normalize_cond, max/min/max_abs/min_abs/l1_norm/l8_norm/mean/mean_abs, minimize/maximize/minimized/maximized/min/max, converting constructor/assignment, << >> round trip, swap, vectorized; exact for integers, 8 ulp-scaled for floats. part geo: random meshes (tets + free polygons, positions with mixed magnitudes): vector/length/barycenter (edge, face, cell), halfface normal vs formula (well-conditioned faces), triangle normals of the two sides opposite, NormalAttrib face/halfface/vertex normals. non-trivial = >=100 pairs or >=3 faces and >=6 halfedges checked; distinct by chunk / mesh digest"},
+                 "text": "part vec: dims 2,3,4 x {int, unsigned, float, double}. Integer types: ALL ordered pairs over the lattice {-3..3}^DIM resp. {0..6}^DIM, chunked by first vector (quick: dims 2 and 3 complete, dim 4 sampled chunks; thorough: all three dims complete = 49+117649+5764801 pairs per type); floating types: random magnitudes over 60 binades + specials (0,-0, denormals, 1e17, 1e150, equal components, equal vectors). Every pair is pushed through + - * / (vector and scalar, in-place forms), unary minus, ==, !=, lexicographic <, |, dot, %, cross, sqrnorm, norm, length, normalize/normalized/normalize_cond, max/min/max_abs/min_abs/l1_norm/l8_norm/mean/mean_abs, minimize/maximize/minimized/maximized/min/max, converting constructor/assignment, << >> round trip, swap, vectorized; exact for integers, 8 ulp-scaled for floats. part geo: random meshes (tets, square/pentagonal pyramids, prisms, octahedra + free polygons, positions with mixed magnitudes): vector/length/barycenter (edge, face, cell), halfface normal vs formula (well-conditioned faces), triangle normals of the two sides opposite, NormalAttrib face/halfface/vertex normals. non-trivial = >=100 pairs or >=3 faces and >=6 halfedges checked; distinct by chunk / mesh digest"},
   "floor": {"quick": 300, "thorough": 3000},
-  "min_counts": {"vec.pairs": 500000, "geo.normals": 2000, "geo.opposite-normals": 500, "geo.cells": 200},
+  "min_counts": {"vec.pairs": 500000, "geo.normals": 2000, "geo.opposite-normals": 500, "geo.cells": 200, "geo.cells.non-simplicial": 50},
   "assumptions": COMMON_ASSUME + ["floating-point results are compared within 8 ulp of the operation's magnitude; values whose squares overflow are excluded", "apply() is not named by the property and not judged"],
  },
  "C20": {
